@@ -71,9 +71,20 @@ def history(draw):
                               st.integers(0, min(top, 64)), st.integers(0, top)))
 
     for _ in range(n):
-        kind = draw(st.sampled_from(["w", "w", "w", "ws", "r", "r", "r", "r", "sync", "cap10", "cap16", "inq", "replug"]))
+        kind = draw(st.sampled_from(["w", "w", "w", "ws", "r", "r", "r", "r", "sync", "cap10", "cap16", "inq", "replug", "oob"]))
         if kind == "replug":
             ops.append({"k": "replug"})
+            continue
+        if kind == "oob":
+            # a transfer that runs past the end of the medium: the target answers CHECK CONDITION / ILLEGAL
+            # REQUEST / LBA OUT OF RANGE, the caller sees that error on both transports and nothing is written
+            v = draw(st.sampled_from([10, 12, 16]))
+            tl = draw(st.integers(1, 4))
+            lba = cap - draw(st.integers(0, tl - 1))
+            if lba >= (1 << (64 if v == 16 else 32)) or lba < 0:
+                continue
+            ops.append({"k": "oob", "rw": draw(st.sampled_from(["r", "w"])), "v": v, "lba": lba, "tl": tl,
+                        "seed": draw(st.integers(0, 1 << 30))})
             continue
         if kind in ("w", "r"):
             v = draw(st.sampled_from([10, 12, 16]))
@@ -227,6 +238,21 @@ def run_history(case, transport):
                 continue
             flags = {f: op[f] for f in ("wrprotect", "rdprotect", "dpo", "fua", "rarc", "group", "unmap", "anchor",
                                         "ndob", "immed") if f in op}
+            if k == "oob":
+                try:
+                    if op["rw"] == "w":
+                        getattr(s, "write%d" % op["v"])(op["lba"], op["tl"], pattern(op["seed"], op["tl"], bs))
+                    else:
+                        getattr(s, "read%d" % op["v"])(op["lba"], op["tl"])
+                    exc = None
+                except Exception as e:  # noqa
+                    exc = e
+                expect(exc is not None, "mismatch:out_of_range_transfer_looks_successful", op=op, transport=transport)
+                expect(type(exc).__name__ == "CheckCondition" and getattr(exc, "asc", None) == 0x21,
+                       "mismatch:out_of_range_error", op=op, got=repr(exc)[:160], transport=transport)
+                obs.append(("oob", i))
+                expect(len(tgt.log) == before + 1, "mismatch:commands_per_call", op=op, n=len(tgt.log) - before)
+                continue
             if k == "w":
                 data = pattern(op["seed"], op["tl"], bs)
                 with lib("write%d" % op["v"]):
